@@ -57,21 +57,6 @@ def _verif_install(hook) -> bool:
     return True
 
 
-def js_round(x: float, ndigits: int = 0) -> float:
-    """Round using JavaScript-style 'round half away from zero' instead of Python's 'round half to even'."""
-    if ndigits == 0:
-        if x >= 0:
-            return math.floor(x + 0.5)
-        else:
-            return math.ceil(x - 0.5)
-    else:
-        multiplier = 10**ndigits
-        if x >= 0:
-            return math.floor(x * multiplier + 0.5) / multiplier
-        else:
-            return math.ceil(x * multiplier - 0.5) / multiplier
-
-
 # ECMAScript WhiteSpace and LineTerminator code points (what String.prototype.trim removes)
 JS_WHITESPACE = (
     "\t\n\x0b\x0c\r \xa0\u1680\u2000\u2001\u2002\u2003\u2004\u2005\u2006"
@@ -1779,133 +1764,104 @@ class VM:
         return methods.get(method, lambda *args: UNDEFINED)
 
     def _make_number_method(self, n: float, method: str) -> Any:
-        """Create a bound number method."""
+        """Create a bound number method.
+
+        The digits are produced with exact integer arithmetic on the double's value
+        (ECMA-262 21.1.3: "let n be an integer for which n / 10^f - x is as close to
+        zero as possible; if there are two such n, pick the larger"), never with
+        binary floating point."""
+
+        def is_finite() -> bool:
+            return not (isinstance(n, float) and (math.isnan(n) or math.isinf(n)))
+
+        def scaled(power: int) -> int:
+            """abs(n) * 10**power rounded to the nearest integer, ties up (exact)."""
+            num, den = abs(n).as_integer_ratio()
+            if power >= 0:
+                num *= 10**power
+            else:
+                den *= 10**-power
+            return (2 * num + den) // (2 * den)
+
+        def decimal_exponent() -> int:
+            """e with 10**e <= abs(n) < 10**(e + 1), for finite non-zero n (exact)."""
+            num, den = abs(n).as_integer_ratio()
+            e = len(str(num)) - len(str(den))
+            if (num * 10**-e if e < 0 else num) < (den * 10**e if e > 0 else den):
+                e -= 1
+            return e
+
+        def significant(p: int):
+            """(digits, e): the p significant digits nearest to abs(n), ties up."""
+            e = decimal_exponent()
+            m = scaled(p - 1 - e)
+            if m == 10**p:  # rounding carried into the next power of ten
+                m, e = 10 ** (p - 1), e + 1
+            return str(m), e
+
+        def exponent_form(digits: str, e: int) -> str:
+            mantissa = digits if len(digits) == 1 else digits[0] + "." + digits[1:]
+            return mantissa + ("e+" if e >= 0 else "e-") + str(abs(e))
+
+        negative = is_finite() and n < 0  # -0 prints without a sign
+        sign = "-" if negative else ""
 
         def toFixed(*args):
-            digits = int(to_number(args[0])) if args else 0
-            if digits < 0 or digits > 100:
+            f = to_integer_or_infinity(args[0]) if args else 0
+            if f < 0 or f > 100:
                 raise JSRangeError("toFixed() digits out of range")
-            # Use JavaScript-style rounding (round half away from zero)
-            rounded = js_round(n, digits)
-            result = f"{rounded:.{digits}f}"
-            # Handle negative zero: if n was negative but rounded to 0, keep the sign
-            if n < 0 or (n == 0 and math.copysign(1, n) == -1):
-                if rounded == 0:
-                    result = "-" + result.lstrip("-")
-            return result
+            if not is_finite() or abs(n) >= 1e21:
+                return to_string(n)
+            digits = str(scaled(f)).rjust(f + 1, "0")
+            if f == 0:
+                return sign + digits
+            return sign + digits[:-f] + "." + digits[-f:]
 
         def toString(*args):
-            radix = int(to_number(args[0])) if args else 10
+            radix = 10
+            if args and args[0] is not UNDEFINED:
+                radix = to_integer_or_infinity(args[0])
             if radix < 2 or radix > 36:
                 raise JSRangeError("toString() radix must be between 2 and 36")
-            if radix == 10:
-                if isinstance(n, float) and n.is_integer():
-                    return str(int(n))
-                return str(n)
-            # Convert to different base
-            if n < 0:
-                return "-" + self._number_to_base(-n, radix)
-            return self._number_to_base(n, radix)
+            if radix == 10 or not is_finite():
+                return to_string(n)
+            return sign + self._number_to_base(abs(n), radix)
 
         def toExponential(*args):
-            import math
-
-            if args and args[0] is not UNDEFINED:
-                digits = int(to_number(args[0]))
-            else:
-                digits = None
-
-            if math.isnan(n):
-                return "NaN"
-            if math.isinf(n):
-                return "-Infinity" if n < 0 else "Infinity"
-
-            if digits is None:
-                # Default precision - minimal representation
-                # Use repr-style formatting and convert to exponential
-                if n == 0:
-                    return "0e+0"
-                sign = "-" if n < 0 else ""
-                abs_n = abs(n)
-                exp = int(math.floor(math.log10(abs_n)))
-                mantissa = abs_n / (10**exp)
-                # Format mantissa without trailing zeros
-                mantissa_str = f"{mantissa:.15g}".rstrip("0").rstrip(".")
-                exp_sign = "+" if exp >= 0 else ""
-                return f"{sign}{mantissa_str}e{exp_sign}{exp}"
-            else:
-                if digits < 0 or digits > 100:
-                    raise JSRangeError("toExponential() digits out of range")
-                # Round to specified digits
-                if n == 0:
-                    return "0" + ("." + "0" * digits if digits > 0 else "") + "e+0"
-                sign = "-" if n < 0 else ""
-                abs_n = abs(n)
-                exp = int(math.floor(math.log10(abs_n)))
-                mantissa = abs_n / (10**exp)
-                # Round mantissa to specified digits using JS-style rounding
-                rounded = js_round(mantissa, digits)
-                if rounded >= 10:
-                    rounded /= 10
-                    exp += 1
-                if digits == 0:
-                    mantissa_str = str(int(js_round(rounded)))
-                else:
-                    mantissa_str = f"{rounded:.{digits}f}"
-                exp_sign = "+" if exp >= 0 else ""
-                return f"{sign}{mantissa_str}e{exp_sign}{exp}"
+            f = to_integer_or_infinity(args[0]) if args else 0
+            if not is_finite():
+                return to_string(n)
+            if f < 0 or f > 100:
+                raise JSRangeError("toExponential() digits out of range")
+            shortest = not args or args[0] is UNDEFINED
+            if n == 0:
+                return exponent_form("0" * (1 if shortest else f + 1), 0)
+            if shortest:
+                # as many digits as needed to identify the number: those of ToString
+                mantissa, _, exponent = repr(abs(float(n))).partition("e")
+                int_part, _, frac_part = mantissa.partition(".")
+                digits = (int_part + frac_part).lstrip("0")
+                e = len(int_part) + int(exponent or 0) - (len(int_part + frac_part) - len(digits)) - 1
+                return sign + exponent_form(digits.rstrip("0") or "0", e)
+            digits, e = significant(f + 1)
+            return sign + exponent_form(digits, e)
 
         def toPrecision(*args):
-            import math
-
             if not args or args[0] is UNDEFINED:
-                if isinstance(n, float) and n.is_integer():
-                    return str(int(n))
-                return str(n)
-
-            precision = int(to_number(args[0]))
-            if precision < 1 or precision > 100:
+                return to_string(n)
+            p = to_integer_or_infinity(args[0])
+            if not is_finite():
+                return to_string(n)
+            if p < 1 or p > 100:
                 raise JSRangeError("toPrecision() precision out of range")
-
-            if math.isnan(n):
-                return "NaN"
-            if math.isinf(n):
-                return "-Infinity" if n < 0 else "Infinity"
-
-            if n == 0:
-                if precision == 1:
-                    return "0"
-                return "0." + "0" * (precision - 1)
-
-            sign = "-" if n < 0 else ""
-            abs_n = abs(n)
-            exp = int(math.floor(math.log10(abs_n)))
-
-            # Decide if we use exponential or fixed notation
-            if exp < -6 or exp >= precision:
-                # Use exponential notation
-                mantissa = abs_n / (10**exp)
-                rounded = js_round(mantissa, precision - 1)
-                if rounded >= 10:
-                    rounded /= 10
-                    exp += 1
-                if precision == 1:
-                    mantissa_str = str(int(js_round(rounded)))
-                else:
-                    mantissa_str = f"{rounded:.{precision - 1}f}"
-                exp_sign = "+" if exp >= 0 else ""
-                return f"{sign}{mantissa_str}e{exp_sign}{exp}"
-            else:
-                # Use fixed notation
-                # Calculate digits after decimal
-                if exp >= 0:
-                    decimal_places = max(0, precision - exp - 1)
-                else:
-                    decimal_places = precision - 1 - exp
-                rounded = js_round(abs_n, decimal_places)
-                if decimal_places <= 0:
-                    return f"{sign}{int(rounded)}"
-                return f"{sign}{rounded:.{decimal_places}f}"
+            digits, e = ("0" * p, 0) if n == 0 else significant(p)
+            if e < -6 or e >= p:
+                return sign + exponent_form(digits, e)
+            if e == p - 1:
+                return sign + digits
+            if e >= 0:
+                return sign + digits[: e + 1] + "." + digits[e + 1 :]
+            return sign + "0." + "0" * -(e + 1) + digits
 
         def valueOf(*args):
             return n
@@ -1920,19 +1876,43 @@ class VM:
         return methods.get(method, lambda *args: UNDEFINED)
 
     def _number_to_base(self, n: float, radix: int) -> str:
-        """Convert number to string in given base."""
-        if n != int(n):
-            # For non-integers, just use base 10
-            return str(n)
-        n = int(n)
-        if n == 0:
-            return "0"
-        digits = "0123456789abcdefghijklmnopqrstuvwxyz"
-        result = []
-        while n:
-            result.append(digits[n % radix])
-            n //= radix
-        return "".join(reversed(result))
+        """Digits of a finite non-negative number in the given radix: the integer part
+        exactly, then fraction digits until the value is identified among the doubles
+        (exact rational arithmetic; terminates after at most 1100 digits)."""
+        from fractions import Fraction
+
+        alphabet = "0123456789abcdefghijklmnopqrstuvwxyz"
+        value = Fraction(n)
+        integer = int(value)
+        fraction = value - integer
+        digits = []
+        while integer:
+            digits.append(alphabet[integer % radix])
+            integer //= radix
+        text = "".join(reversed(digits)) or "0"
+        if fraction == 0:
+            return text
+        # half the distance to the next double: digits beyond it carry no information
+        delta = Fraction(math.ulp(float(n))) / 2
+        out = []
+        while True:
+            fraction *= radix
+            delta *= radix
+            digit = int(fraction)
+            fraction -= digit
+            out.append(digit)
+            round_up = 2 * fraction > 1 and 1 - fraction < delta
+            if fraction < delta or round_up:
+                break
+        if round_up:  # the next digit up identifies the number as well and is closer
+            k = len(out) - 1
+            while k >= 0 and out[k] == radix - 1:
+                out.pop()
+                k -= 1
+            if k < 0:
+                return self._number_to_base(float(int(value) + 1), radix)
+            out[k] += 1
+        return text + "." + "".join(alphabet[d] for d in out)
 
     def _make_string_method(self, s: str, method: str) -> Any:
         """Create a bound string method."""
